@@ -1,5 +1,6 @@
 #!/bin/sh
-# w10eval.sh <prop> <n> <seed-id> [checks...]: evaluates /tmp/w10/out-<prop>/mut<n>.* as seeded/<seed-id>
+# w10eval.sh <prop> <n> <seed-id> [checks...]: evaluates $W/out-<prop>/mut<n>.* (W defaults to /tmp/w10) as seeded/<seed-id>
+W=${W:-/tmp/w10}
 p=$1; n=$2; id=$3; shift 3
-dir=$(head -1 /tmp/w10/out-$p/mut$n.md | sed 's/^demo_package_dir: *//')
-python3 /verif/tools/seedeval.py $id $p /tmp/w10/out-$p/mut$n.diff /tmp/w10/out-$p/mut${n}_demo_test.go "$dir" "$@"
+dir=$(head -1 $W/out-$p/mut$n.md | sed 's/^demo_package_dir: *//')
+python3 /verif/tools/seedeval.py $id $p $W/out-$p/mut$n.diff $W/out-$p/mut${n}_demo_test.go "$dir" "$@"
